@@ -81,6 +81,12 @@ add('C17',
     'Trusts ast.unparse/ast.parse round-tripping (stdlib) and the single recorded exception (visit_arg hands through freshly built ast.arg nodes).',
     'DESIGN.md section 4, C17')
 
+add('C18',
+    'frozen laziness table and evaluation-order table (language reference) checked against the handlers of AnfTransformer: helper-return classification and always-raises CFG test for lazy constructs, dominance of the pending-count snapshot over the visit, field-visit order extraction per handler against the grammar field order, ASDL-closure traversal analysis for completeness, CFG dominance for flush-before-blocks, dead-class references, increment-before-use',
+    'Decides the structural clauses: every lazy/re-evaluated construct is only accepted when nothing was extracted (count taken before the visit) or rejected; per node kind the field visiting order equals Python\'s evaluation order; every expression-holding field is visited; header statements are flushed before blocks and nothing pending crosses a block; pass-through tables name live classes; temporaries are fresh. Three genuine order defects of the unchanged tree are listed known findings (F9a batch visit-then-name, F9b assignment targets first, F9c dict keys before values).',
+    'Does not execute transformed programs; the evaluation-order table is frozen from the language reference.',
+    'DESIGN.md section 4, C18')
+
 NOT_APPLICABLE = {
     'C12': 'quantifies over run-time tracebacks, generated line layout and source-map contents, which exist only after the pipeline has run on a program; the only shape-level clause (exception re-creation table) is too small a part to claim the property through (DESIGN.md section 5)',
 }
